@@ -56,9 +56,9 @@ def statusAfter (m : M) (r : RunRes) : Bool :=
 
 /-- the readable invariant: CONNECTED only with a facade that was announced and not torn down, on a connected spa -/
 def good (m : M) : Bool :=
-  (m.state != .CONNECTED || (m.facade && m.spa && m.spaConn && m.fmon == .ready)) &&
-  (!m.facade || (m.spa && m.spaConn && (m.fmon == .ready || m.fmon == .tornDown))) &&
-  (!m.spaConn || m.spa) && m.fmon != .built && (m.sensor == m.status.isSome) && (m.radio == m.chan)
+  (m.state != .CONNECTED || (m.facade && m.spa && m.spaConn && m.proto && m.fmon == .ready)) &&
+  (!m.facade || (m.spa && m.spaConn && m.proto && (m.fmon == .ready || m.fmon == .tornDown))) &&
+  (!m.spaConn || m.spa) && (!m.proto || m.spa) && m.fmon != .built && (m.sensor == m.status.isSome) && (m.radio == m.chan)
 
 def idleClean (_m m' : M) : Bool :=
   m'.state == .IDLE && !m'.facade && !m'.spa && !m'.spaConn && !m'.desc
